@@ -93,7 +93,9 @@ def run(rep):
         'evaluations': d.evals,
         'distinct_nontrivial': len(nontriv),
         'rule': '%d generated messages (85%% MIME trees: quoted boundary, 0-60 parts per level, depth 0-6, preamble/epilogue, boundary '
-                'look-alikes, every encoding, missing/invalid terminator or boundary parameter; 20%% mutated); part list with per-part table, '
+                'look-alikes, every encoding, missing/invalid terminator or boundary parameter; 12%% of the trees with a boundary out of an '
+                'RFC 2047 encoded word - newline, CR, control bytes, "--" - over bodies of delimiter look-alikes, outside the specification\'s '
+                'domain (NOTWF) and compared implementation <-> model only; 20%% mutated); part list with per-part table, '
                 'raw and decoded body, and the message body, each compared with the line-based specification; non-trivial = at least one '
                 'part, or a body that was actually decoded; distinct by request' % n,
         'samples': [{'request': d.line(reqs[i])[:300], 'implementation': impl[i][:200], 'specification': (spec[i] or '')[:200]}
